@@ -37,6 +37,26 @@ def done(ok):
     return ok
 
 
+def untraced():
+    """Run concrete-only bookkeeping (deep copies, snapshots of concrete objects) natively."""
+    import contextlib
+    try:
+        from crosshair.tracers import NoTracing, is_tracing
+        if is_tracing():
+            return NoTracing()
+    except ImportError:  # concrete replay without CrossHair on the path
+        pass
+    return contextlib.nullcontext()
+
+
+def pick(seq, i):
+    """seq[i] for a symbolic index, by branching: the element stays a concrete object."""
+    for k in range(len(seq)):
+        if i == k:
+            return seq[k]
+    raise Poison("index out of range")
+
+
 def part(name: str, default: int) -> int:
     """Discrete partition parameter (fixed per process, DESIGN §1.9)."""
     return int(os.environ.get(name, default))
